@@ -113,9 +113,13 @@ def run(chk):
 
     fams += [(f"{k}@sinks-first", reinserted(c, "sinks-first")) for k, c in fams if (chk.tier == "thorough" or not k.startswith(("and", "or", "nand", "nor", "xor", "xnor", "t2::")))]
     n = 0
-    for kname, c in fams:
+    from ..pkgenv import FullStackCaller
+
+    FS = FullStackCaller(repo)
+    fs_runs = [(f"{k_}@full-stack", c_, FS) for k_, c_ in fams if k_ in ("reconv", "consts", "fanout", "in-is-out", "controlling-constants", "net-named-a_X") or k_.startswith("corpus::") and "@" not in k_][:14]
+    for kname, c, caller in [(k_, c_, P) for k_, c_ in fams] + fs_runs:
         snap = c._snapshot()
-        r = P.call(FILE, "ternary", c)
+        r = caller.call(FILE, "ternary", c)
         n += 1
         key = f"ternary::{kname}"
         if r[0] == "raise" and r[1] == "ValueError" and "::name::" in kname:
